@@ -787,7 +787,7 @@ func runScenarios(c *Check, tier string, scs []*mc.Scenario, deadline time.Time,
 
 func crashClass(stderr string) string {
 	// first resgate frame of the panicking goroutine
-	re := regexp.MustCompile(`github.com/resgateio/resgate/([\w/]+)\.([\w\(\)\*\.]+)`)
+	re := regexp.MustCompile(`github.com/resgateio/resgate/([\w/]+)\.([\w\*\.]+|\(\*?\w+\)\.[\w\.]+)`)
 	if m := re.FindStringSubmatch(stderr); m != nil {
 		return m[1] + "." + m[2]
 	}
